@@ -102,8 +102,8 @@ CHECKS["C11"] = dict(
     design="DESIGN.md S.2 and 3 C11")
 
 CHECKS["C10"] = dict(
-    technique="Coq proof: clamping bound for all entries/tolerances (Clamp.v, targets regenerated from the source), diagonal kernel = diagonal of the full tensor for all dof-block lists under FFCx's layouts with the block guard read off the source (Diag.v), tensor-product rule factorisation (SumFact.v); each form compiled under each option and compared with the independent oracle",
-    text="Proved: an element-table entry moves by at most atol+rtol under clamp_table_small_numbers (and not at all for zero tolerances); with the guard found in generate_block_parts the rank-1 kernel equals the diagonal for every list of blocks whose position families are equal or disjoint; flat tensor-rule sum = product of directional sums. Sampled: sum_factorization on/off on tensor-product elements (coefficients, several rules, one-point rules, vector-valued, hex/quad), options on integrals they do not apply to (no rejection, no change), part='diagonal' through the real compile_forms preprocessing (mixed, vector, interior facets, H(div)/H(curl)), zero and coarse table tolerances.",
+    technique="Coq proof: clamping bound for all entries/tolerances (Clamp.v, targets regenerated from the source), diagonal kernel = diagonal of the full tensor for all dof-block lists under FFCx's layouts with the block guard read off the source (Diag.v), tensor-product rule factorisation (SumFact.v); per sampled bilinear form the rank-1 kernel of part='diagonal' is proved, by symbolic execution of both kernels and polynomial normal forms (Sym.v, SymEq.diagonal_equiv_sound), to return the diagonal of the rank-2 kernel for all inputs; each form compiled under each option and compared with the independent oracle",
+    text="Proved: an element-table entry moves by at most atol+rtol under clamp_table_small_numbers (and not at all for zero tolerances); with the guard found in generate_block_parts the rank-1 kernel equals the diagonal for every list of blocks whose position families are equal or disjoint; flat tensor-rule sum = product of directional sums; per sampled bilinear form (mixed, vector, interior facets, H(div)/H(curl), two rules) and entity/permutation value: diagonal kernel = diagonal of the full kernel for ALL real inputs. Sampled: sum_factorization on/off on tensor-product elements (coefficients, several rules, one-point rules, vector-valued, hex/quad), options on integrals they do not apply to (no rejection, no change), part='diagonal' through the real compile_forms preprocessing (mixed, vector, interior facets, H(div)/H(curl)), zero and coarse table tolerances.",
     note="Coq kernel; tr_c10.py; oracle trusted as specification; forms sampled; table classification uses default tolerances regardless of the options (noted)",
     design="DESIGN.md S.2 and 3 C10")
 
